@@ -143,20 +143,33 @@ def one_case(mon, rng, c):
             amt = Decimal(1) / Decimal(10**t.decimal)
         choices = ["supply"] * 3
         if led.sup.get(name):
-            choices += ["withdraw", "withdraw_all", "withdraw_part3"]
+            choices += ["withdraw", "withdraw_all", "withdraw_part3", "withdraw_zero"]
         if led.sup:
             choices += ["borrow"] * 2
         if led.bor:
-            choices += ["repay", "repay_all", "repay_coll", "repay_half_twice", "repay_over"]
+            choices += ["repay", "repay_all", "repay_coll", "repay_half_twice", "repay_over", "repay_zero"]
         op = rng.choice(choices)
         wb = {k.name: v.balance for k, v in fz.broker.assets.items()}
         sup_before, bor_before = dict(led.sup), dict(led.bor)
         n_act = len(fz.actions)
         res = None
+        zero_op = False
         paid = Fraction(0)
         exp_wallet = {}
         label = op
-        if op == "supply":
+        if op in ("withdraw_zero", "repay_zero"):
+            # an amount of exactly zero (a computed delta that came out 0) is not "everything": refused or a no-op, the
+            # position and the wallet stay where they are (ledger untouched, no wallet move expected)
+            zero = rng.choice([Decimal(0), 0, 0.0, Decimal("0.000000000000000000")])
+            if op == "withdraw_zero":
+                res = Dr.call_op(m.withdraw, t, zero)
+            else:
+                name = rng.choice(sorted(led.bor))
+                res = Dr.call_op(m.repay, tok[name], zero)
+            mon.hit(op)
+            mon.cls(f"{op}/{'accepted' if res.ok else 'rejected'}")
+            zero_op = True
+        elif op == "supply":
             # the collateral flag is drawn once per position (a supply with the other flag is rejected, C04's subject)
             flag = flags.get(name) if name in led.sup else (rng.random() < 0.7)
             res = Dr.call_op(m.supply, t, amt, flag)
@@ -326,7 +339,9 @@ def one_case(mon, rng, c):
         # action record
         new = fz.actions[n_act:]
         mon.ev()
-        if not new:
+        if zero_op:
+            pass  # an accepted zero request has nothing to record
+        elif not new:
             mon.violation("aave", label, "no-action-record", "", f"{label} {name}: accepted but no action recorded")
         else:
             rec = sum((F(getattr(x, "amount", 0)) for x in new), Fraction(0))
